@@ -12,12 +12,12 @@ import shroudrun  # noqa: E402
 from rt import cases as K, cgen  # noqa: E402
 
 PYINC = "/root/.pyenv/versions/3.12.1/include/python3.12"
-PY_ROWS = {"int_v", "long_v", "double_v", "bool_v", "enum_v", "int_pin", "int_pout", "int_pinout", "int_ref", "dbl_cref", "dbl_pout",
+PY_ROWS = {"tdint_v", "tdstr_in", "int_v", "long_v", "double_v", "bool_v", "enum_v", "int_pin", "int_pout", "int_pinout", "int_ref", "dbl_cref", "dbl_pout",
            "bool_pinout", "cstr_in", "str_cref", "str_ref_inout", "str_ref_out",
            # list-mode arrays and vectors, structs as classes (PY_array_arg: list, PY_struct_arg: class)
            "arr_in", "arr_n", "arr_out", "out_n", "vec_in", "vec_out_alloc", "pt_v", "pt_pinout", "pt_cref",
            "arrx_out", "dim_n", "dim_m"}
-PY_RESULTS = {"void", "int", "double", "bool", "enum", "cstr", "str_cref", "pt"}
+PY_RESULTS = {"tdint", "void", "int", "double", "bool", "enum", "cstr", "str_cref", "pt"}
 PT_Y = {"pt_v": 1.5, "pt_pinout": 2.5, "pt_cref": -0.5}
 SIZES = [4, 0, 1, 3]
 
